@@ -17,7 +17,7 @@ from props import C02 as P2, C03 as P3, C04 as P4, C16 as P16
 
 EXN = re.compile(r'^[A-Za-z]*Error$')
 SIZES = [0, 1, 2, 5, 13]
-KINDS = 'ALUTRKSGHJV'
+KINDS = 'ALUTRKSGHJVZ'
 
 
 def matrix_cases(contract, sizes):
